@@ -239,6 +239,12 @@ fn main() {
             texts.push((0..len).map(|i| tsigma[(i * (rot + 1) + rot) % (tsigma.len() - 1)]).collect());
         }
     }
+    // second alphabet: characters the normaliser changes WITHOUT leaving the 3-byte range (dash and
+    // tilde look-alikes, half-width CJK punctuation and katakana) next to katakana / hiragana, so that
+    // the character TYPE seen by the wsconst filters depends on normalisation having happened
+    for t in gen::strings(&['ラ', '－', '―', '～', 'あ', '｡', 'ｶ', '–'], 1, tier.pick(3, 4)) {
+        texts.push(gen::s(&t));
+    }
     let wss: Vec<String> = gen::strings(&['D', 'R', 'H', 'T', 'K', 'O', 'G'], 0, tier.pick(2, 3)).iter().map(|t| gen::s(t)).collect();
     chk.set("stream_texts", json!(texts.len()));
     chk.set("wsconst_strings", json!(wss.len()));
